@@ -344,3 +344,139 @@ Theorem lead_lag_spec buf ps pe pos offset def :
   lead_lag buf ps pe pos offset def =
   if (ps <=? pos - offset) && (pos - offset <? pe) then znth buf (pos - offset) None else def.
 Proof. unfold lead_lag. rewrite Z.geb_leb. reflexivity. Qed.
+
+(* ---------- window MAX / MIN / FIRST_VALUE / LAST_VALUE / AVG over a frame inside the partition ---------- *)
+Lemma skipn_add {A} (l : list A) : forall b a, skipn a (skipn b l) = skipn (b + a) l.
+Proof.
+  induction l as [|x t IH]; intros b a; [rewrite !skipn_nil; reflexivity|].
+  destruct b as [|b]; [reflexivity|]. cbn [skipn Nat.add]. apply IH.
+Qed.
+
+Lemma slice_sub {A} (buf : list A) ps pe (a b : nat) : 0 <= ps ->
+  (a <= b <= length (slice buf ps pe))%nat ->
+  slice buf (ps + Z.of_nat a) (ps + Z.of_nat b) = firstn (b - a) (skipn a (slice buf ps pe)).
+Proof.
+  intros Hps H. unfold slice in *.
+  replace (Z.to_nat (ps + Z.of_nat b - (ps + Z.of_nat a))) with (b - a)%nat by lia.
+  replace (Z.to_nat (ps + Z.of_nat a)) with (Z.to_nat ps + a)%nat by lia.
+  rewrite firstn_length in H.
+  rewrite skipn_firstn_comm, firstn_firstn, skipn_add.
+  replace (Nat.min (b - a) (Z.to_nat (pe - ps) - a)) with (b - a)%nat by lia. reflexivity.
+Qed.
+
+Definition frame_rows (buf : list v) ps pe (a b : nat) : list v := firstn (b - a) (skipn a (slice buf ps pe)).
+
+Theorem win_max_spec buf ps pe (a b : nat) : 0 <= ps -> (a <= b <= length (slice buf ps pe))%nat ->
+  win_agg FMax buf ps pe (ps + Z.of_nat a) (ps + Z.of_nat b) = of_v (spec_max (frame_rows buf ps pe a b)).
+Proof.
+  intros Hps H. unfold win_agg, frame_rows. rewrite Z.max_l by lia. rewrite (slice_sub buf ps pe) by assumption.
+  rewrite max_buf_spec. reflexivity.
+Qed.
+
+Theorem win_min_spec buf ps pe (a b : nat) : 0 <= ps -> (a <= b <= length (slice buf ps pe))%nat ->
+  win_agg FMin buf ps pe (ps + Z.of_nat a) (ps + Z.of_nat b) = of_v (spec_min (frame_rows buf ps pe a b)).
+Proof.
+  intros Hps H. unfold win_agg, frame_rows. destruct (Z.ltb_spec (ps + Z.of_nat a) 0); [lia|].
+  rewrite (slice_sub buf ps pe) by assumption. rewrite min_buf_spec. reflexivity.
+Qed.
+
+Lemma nth_firstn' {A} (l : list A) d : forall n i, (i < n)%nat -> nth i (firstn n l) d = nth i l d.
+Proof.
+  induction l as [|x t IH]; intros n i H; [rewrite firstn_nil; reflexivity|].
+  destruct n as [|n]; [lia|]. destruct i as [|i]; [reflexivity|]. cbn [firstn nth]. apply IH. lia.
+Qed.
+Lemma nth_skipn' {A} (l : list A) d : forall n i, nth i (skipn n l) d = nth (n + i) l d.
+Proof.
+  induction l as [|x t IH]; intros n i; [rewrite skipn_nil; destruct i, n; reflexivity|].
+  destruct n as [|n]; [reflexivity|]. cbn [skipn Nat.add nth]. apply IH.
+Qed.
+
+Lemma last_nth' {A} (l : list A) d : last l d = nth (length l - 1) l d.
+Proof.
+  induction l as [|x t IH]; [reflexivity|]. destruct t as [|y t']; [reflexivity|].
+  change (last (x :: y :: t') d) with (last (y :: t') d). rewrite IH. cbn [length]. 
+  replace (S (S (length t')) - 1)%nat with (S (length t')) by lia.
+  replace (S (length t') - 1)%nat with (length t') by lia. reflexivity.
+Qed.
+
+Lemma znth_slice {A} (buf : list A) ps pe (i : nat) d : 0 <= ps -> (i < length (slice buf ps pe))%nat ->
+  znth buf (ps + Z.of_nat i) d = nth i (slice buf ps pe) d.
+Proof.
+  intros Hps Hi. unfold znth, slice in *. destruct (Z.ltb_spec (ps + Z.of_nat i) 0); [lia|].
+  rewrite firstn_length in Hi. rewrite nth_firstn' by lia. rewrite nth_skipn'. f_equal. lia.
+Qed.
+
+(* FIRST_VALUE / LAST_VALUE: the value of the first / last row of the frame, NULL for an empty frame *)
+Theorem win_first_last_spec buf ps pe (a b : nat) : 0 <= ps -> (a <= b <= length (slice buf ps pe))%nat ->
+  win_agg FFirst buf ps pe (ps + Z.of_nat a) (ps + Z.of_nat b)
+    = (if (a <? b)%nat then of_v (hd None (frame_rows buf ps pe a b)) else WNull) /\
+  win_agg FLast buf ps pe (ps + Z.of_nat a) (ps + Z.of_nat b)
+    = (if (a <? b)%nat then of_v (last (frame_rows buf ps pe a b) None) else WNull).
+Proof.
+  intros Hps H. unfold win_agg, frame_rows. set (part := slice buf ps pe) in *.
+  destruct (Nat.ltb_spec a b) as [Hab|Hab];
+    destruct (Z.ltb_spec (ps + Z.of_nat b - (ps + Z.of_nat a)) 1) as [Hz|Hz]; try lia; [|split; reflexivity].
+  split.
+  - rewrite (znth_slice buf ps pe a None) by (fold part; lia). fold part. f_equal.
+    rewrite <- (firstn_skipn a part) at 1. rewrite app_nth2 by (rewrite firstn_length; lia).
+    rewrite firstn_length. replace (a - Nat.min a (length part))%nat with O by lia.
+    destruct (skipn a part) as [|x t] eqn:E.
+    + exfalso. assert (length (skipn a part) = O) by (rewrite E; reflexivity). rewrite skipn_length in *. lia.
+    + destruct (b - a)%nat eqn:Eb; [lia|]. reflexivity.
+  - replace (ps + Z.of_nat b - 1) with (ps + Z.of_nat (b - 1)) by lia.
+    rewrite (znth_slice buf ps pe (b - 1) None) by (fold part; lia). fold part. f_equal.
+    set (fr := firstn (b - a) (skipn a part)).
+    assert (Hl : length fr = (b - a)%nat) by (unfold fr; rewrite firstn_length, skipn_length; lia).
+    assert (Hn : nth (b - 1) part None = nth (b - a - 1) fr None).
+    { unfold fr. rewrite nth_firstn' by lia. rewrite nth_skipn'. f_equal. lia. }
+    rewrite Hn, last_nth', Hl. reflexivity.
+Qed.
+
+Lemma zsum_nullind xs : zsum (map (fun x : v => match x with None => 1 | Some _ => 0 end) xs)
+  = Z.of_nat (length xs) - Z.of_nat (length (nonnull xs)).
+Proof.
+  induction xs as [|[n|] t IH]; cbn [map nonnull flat_map app length]; [reflexivity| |];
+    rewrite zsum_cons; unfold nonnull in IH; rewrite IH; lia.
+Qed.
+
+(* AVG: with at least one non-NULL value in the frame it is sum / count of the non-NULL values *)
+Theorem win_avg_guarded buf ps pe (a b : nat) : (a <= b <= length (slice buf ps pe))%nat ->
+  nonnull (frame_rows buf ps pe a b) <> [] ->
+  win_agg FAvg buf ps pe (ps + Z.of_nat a) (ps + Z.of_nat b)
+  = WQ (zsum (nonnull (frame_rows buf ps pe a b))) (Z.of_nat (length (nonnull (frame_rows buf ps pe a b)))).
+Proof.
+  intros H Hnn. unfold win_agg, float_prefix, frame_rows in *. cbn [fst snd]. set (part := slice buf ps pe) in *.
+  set (fr := firstn (b - a) (skipn a part)) in *.
+  set (ni := fun x : option Z => match x with Some _ => 0 | None => 1 end).
+  replace (ps + Z.of_nat b - ps - 1) with (Z.of_nat b - 1) by lia.
+  replace (ps + Z.of_nat a - ps - 1) with (Z.of_nat a - 1) by lia.
+  assert (Hcnt : forall k, (k <= length part)%nat ->
+            (if Z.of_nat k - 1 >=? 0 then Z.of_nat k - 1 + 1 - znth (prefix_from 0 (map ni part)) (Z.of_nat k - 1) 0 else 0)
+            = Z.of_nat k - zsum (firstn k (map ni part))).
+  { intros k Hk. pose proof (prefix_value (map ni part) k ltac:(rewrite map_length; exact Hk)) as P.
+    destruct (Z.geb_spec (Z.of_nat k - 1) 0); [rewrite <- P; lia|].
+    assert (k = O) by lia. subst. cbn. reflexivity. }
+  rewrite (Hcnt b) by lia. rewrite (Hcnt a) by lia.
+  assert (Esplit : firstn b (map ni part) = firstn a (map ni part) ++ map ni fr).
+  { unfold fr. rewrite <- firstn_map, <- skipn_map. set (l := map ni part).
+    assert (Hl : length l = length part) by (unfold l; apply map_length).
+    rewrite <- (firstn_skipn a l) at 1. rewrite firstn_app, firstn_firstn.
+    replace (Nat.min b a) with a by lia. rewrite firstn_length. replace (Nat.min a (length l)) with a by lia. reflexivity. }
+  rewrite Esplit, zsum_app, zsum_nullind.
+  assert (Hfl : length fr = (b - a)%nat) by (unfold fr; rewrite firstn_length, skipn_length; lia).
+  rewrite Hfl.
+  replace (Z.of_nat b - (zsum (firstn a (map ni part)) + (Z.of_nat (b - a) - Z.of_nat (length (nonnull fr)))) -
+           (Z.of_nat a - zsum (firstn a (map ni part)))) with (Z.of_nat (length (nonnull fr))) by lia.
+  destruct (nonnull fr) as [|x t] eqn:En; [congruence|]. rewrite <- En.
+  destruct (Z.eqb_spec (Z.of_nat (length (nonnull fr))) 0) as [E0|_]; [rewrite En in E0; cbn in E0; lia|].
+  f_equal. unfold prefix_diff.
+  replace (ps + Z.of_nat b - ps - 1) with (Z.of_nat b - 1) by lia.
+  replace (ps + Z.of_nat a - ps - 1) with (Z.of_nat a - 1) by lia.
+  rewrite !prefix_value by (rewrite map_length; lia).
+  assert (Es : firstn b (map val0 part) = firstn a (map val0 part) ++ map val0 fr).
+  { unfold fr. rewrite <- firstn_map, <- skipn_map. set (l := map val0 part).
+    assert (Hl : length l = length part) by (unfold l; apply map_length).
+    rewrite <- (firstn_skipn a l) at 1. rewrite firstn_app, firstn_firstn.
+    replace (Nat.min b a) with a by lia. rewrite firstn_length. replace (Nat.min a (length l)) with a by lia. reflexivity. }
+  rewrite Es, zsum_app, zsum_val0. lia.
+Qed.
